@@ -161,8 +161,12 @@ func (ex *Exec) block(pred func() bool, what string) {
 			ex.raiseDeadlock()
 		}
 		next := others[0]
-		if ex.X.SchedExplore && len(others) > 1 {
-			next = others[ex.schedChoice(len(others))]
+		if ex.X.SchedExplore && len(others) > 1 && s.switches < ex.X.MaxSwitches {
+			// delay-bounded: deviating from the default (lowest id) costs one unit of the budget
+			if k := ex.schedChoice(len(others)); k != 0 {
+				s.switches++
+				next = others[k]
+			}
 		}
 		ex.transfer(next)
 		cur.pred = nil
@@ -170,9 +174,16 @@ func (ex *Exec) block(pred func() bool, what string) {
 }
 
 // yieldPoint is a preemption point before a visible operation.
-func (ex *Exec) yieldPoint() {
+func (ex *Exec) yieldPoint(kind ...string) {
 	s := ex.sch
 	if !ex.X.SchedExplore || ex.spec > 0 || s.switches >= ex.X.MaxSwitches {
+		return
+	}
+	yk := "chan"
+	if len(kind) > 0 {
+		yk = kind[0]
+	}
+	if ex.X.YieldKinds != "" && !strings.Contains(ex.X.YieldKinds, yk) {
 		return
 	}
 	others := ex.runnableOthers()
